@@ -61,6 +61,9 @@ func detProjects(n int) []*detCase {
 		add("ok-shared-file", []string{"a", "b"},
 			&proj.Conv{Dir: "a", File: "conv.go", Name: "ConvA", Lines: []string{"output:file ../out/gen.go"}, In: "Deep", Out: "DeepOut"},
 			&proj.Conv{Dir: "b", File: "conv.go", Name: "ConvB", Lines: []string{"output:file ../out/gen.go"}})
+		add("ok-cwd-anchored-output", []string{"a", "b"},
+			&proj.Conv{Dir: "a", File: "conv.go", Name: "ConvA", Lines: []string{"output:file @cwd/out/gen.go"}, In: "Deep", Out: "DeepOut"},
+			&proj.Conv{Dir: "b", File: "conv.go", Name: "ConvB", Lines: []string{"output:file @cwd/b/gen/gen.go"}})
 		add("unknown-fields", []string{"a"},
 			&proj.Conv{Dir: "a", File: "conv.go", Name: "ConvA", MethodLines: []string{"ignore Xa Xb Xc Xd", "map V Xe"}})
 		add("unknown-enum-keys", []string{"a"},
@@ -115,13 +118,13 @@ func collectOutputs(root string, before map[string]scratch.Entry) map[string]str
 }
 
 func runC09(e *env) error {
-	e.rep.Rule = "cases = projects (successful, and failing with several simultaneous faults so that every map iteration in the code has >= 2 candidates: unknown fields, unknown enum keys, several faulty variables, several methods with misplaced field settings, several faulty packages/files, same-named converters, several missing contexts); each is run by the goverter binary: baseline, 4 repetitions in fresh processes, permuted and duplicated package patterns, ./... , -cwd from another directory, a relocated copy of the module, and over the outputs of the previous run; exit status, stderr (paths relativised to the module root) and the bytes of every written file are compared with the baseline. non-trivial = every case (each has several packages/converters or several faults); distinct = project x variant"
+	e.rep.Rule = "cases = projects (successful, and failing with several simultaneous faults so that every map iteration in the code has >= 2 candidates: unknown fields, unknown enum keys, several faulty variables, several methods with misplaced field settings, several faulty packages/files, same-named converters, several missing contexts); each is run by the goverter binary: baseline, 4 repetitions in fresh processes, permuted and duplicated package patterns, ./... , -cwd (absolute and relative) from another directory, a relocated copy of the module, and over the outputs of the previous run; exit status, stderr (paths relativised to the module root) and the bytes of every written file are compared with the baseline. non-trivial = every case (each has several packages/converters or several faults); distinct = project x variant"
 	bin := goverterBin(e)
 	base := filepath.Join(e.scratch, "c09")
 	_ = os.MkdirAll(base, 0o755)
-	n, reps := 12, 4
+	n, reps := 13, 4
 	if e.thorough {
-		n, reps = 36, 12
+		n, reps = 39, 12
 	}
 	cases := detProjects(n)
 	type result struct {
@@ -182,6 +185,8 @@ func runC09(e *env) error {
 			run("pattern-dots", "dots", inRoot, plain([]string{"./..."}), false)
 			run("cwd-flag", "cwd", func(root string) string { return filepath.Dir(root) },
 				func(root string) []string { return append([]string{"gen", "-cwd", root}, pats...) }, false)
+			run("cwd-flag-relative", "cwdrel", func(root string) string { return filepath.Dir(root) },
+				func(root string) []string { return append([]string{"gen", "-cwd", filepath.Base(root)}, pats...) }, false)
 			run("relocated", "reloc/deeper/place", inRoot, plain(pats), false)
 			run("over-previous-output", "hist", inRoot, plain(pats), true)
 		}(i, dc)
@@ -196,7 +201,7 @@ func runC09(e *env) error {
 		baseKey := obs[0].key()
 		e.rep.Count(dc.Kind + fmt.Sprintf(".exit%d", obs[0].Exit))
 		for _, o := range obs[1:] {
-			e.rep.Nontrivial(fmt.Sprintf("%d|%s", dc.ID%12, o.Variant))
+			e.rep.Nontrivial(fmt.Sprintf("%d|%s", dc.ID%13, o.Variant))
 			if o.key() != baseKey {
 				class := "nondeterminism:" + dc.Kind
 				e.rep.Violation(class, map[string]any{"case": dc, "baseline": obs[0], "differs": o,
